@@ -25,7 +25,7 @@ FPU == {
   [kind |-> "D", old |-> "d/c", new |-> NULL, ren |-> FALSE, hunks |-> <<>>, to |-> <<>>, from |-> <<0>>, nmode |-> NoMode],
   [kind |-> "D", old |-> "a", new |-> "b", ren |-> FALSE, hunks |-> <<>>, to |-> <<>>, from |-> <<0>>, nmode |-> NoMode],   \* deletion with differing names
   [kind |-> "C", old |-> NULL, new |-> "a", ren |-> FALSE, hunks |-> <<>>, to |-> <<0>>, from |-> <<>>, nmode |-> NoMode],
-  [kind |-> "C", old |-> NULL, new |-> "b", ren |-> FALSE, hunks |-> <<>>, to |-> <<>>, from |-> <<>>, nmode |-> NoMode],     \* git creation of an empty file (no hunks)
+  [kind |-> "C", old |-> NULL, new |-> "b", ren |-> FALSE, hunks |-> <<>>, to |-> <<>>, from |-> <<>>, nmode |-> "644"],      \* git creation of an empty file (no hunks; its header carries the mode)
   [kind |-> "D", old |-> "b", new |-> NULL, ren |-> FALSE, hunks |-> <<>>, to |-> <<>>, from |-> <<>>, nmode |-> NoMode],
   \* a file patch the tool refuses with an error (its new name leaves the tree); it belongs to the worker of its old name
   [kind |-> "E", old |-> "b", new |-> "b", ren |-> FALSE, hunks |-> <<>>, to |-> <<>>, from |-> <<>>, nmode |-> NoMode] }   \* git deletion of an empty file  \* re-creation under an old name
@@ -33,11 +33,11 @@ FPU == {
 F(cells, mode) == [ex |-> TRUE, cells |-> cells, mode |-> mode]
 TreeOf(a, b, c, e) == [p \in Paths |-> CASE p = "a" -> a [] p = "b" -> b [] p = "d/c" -> c [] p = "d/e" -> e]
 TreesSmall == { TreeOf(F(<<0>>, "644"), Absent, F(<<0>>, "644"), Absent),
-                TreeOf(F(<<0, 0>>, "755"), F(<<>>, "644"), Absent, Absent),
+                TreeOf(F(<<0, 0>>, "755"), F(<<>>, "600"), Absent, Absent),
                 TreeOf(F(<<1>>, "644"), F(<<0>>, "644"), F(<<0>>, "644"), F(<<1>>, "644")),
                 TreeOf(Absent, Absent, F(<<1>>, "644"), Absent) }
 TreesAll == {TreeOf(a, b, c, e) : a \in {Absent, F(<<0>>, "644"), F(<<0, 0>>, "755"), F(<<1>>, "644")},
-                                  b \in {Absent, F(<<>>, "644"), F(<<0>>, "644")},
+                                  b \in {Absent, F(<<>>, "644"), F(<<>>, "600"), F(<<0>>, "644")},
                                   c \in {Absent, F(<<0>>, "644"), F(<<1>>, "644")}, e \in {Absent, F(<<1>>, "644")}}
 
 Revs == IF WithReverse THEN BOOLEAN ELSE {FALSE}
